@@ -71,6 +71,8 @@ class FastDiagPoissonSolver2D:
     ) -> None:
         """Compute spectral decomposition (eigenvalue and vectors) of the matrices."""
         eig_vals_x, eig_vecs_x = la.eig(poisson_matrix_x)
+        # real symmetric matrix: the eigen-pairs are real (newer NumPy returns them as complex)
+        eig_vals_x, eig_vecs_x = eig_vals_x.real, eig_vecs_x.real
         # sort eigenvalues in decreasing order
         idx = eig_vals_x.argsort()[::-1]
         eig_vals_x[...] = eig_vals_x[idx]
@@ -79,6 +81,8 @@ class FastDiagPoissonSolver2D:
         self.tranpose_of_inv_of_eig_vecs_x = np.transpose(la.inv(eig_vecs_x))
 
         eig_vals_y, eig_vecs_y = la.eig(poisson_matrix_y)
+        # real symmetric matrix: the eigen-pairs are real (newer NumPy returns them as complex)
+        eig_vals_y, eig_vecs_y = eig_vals_y.real, eig_vecs_y.real
         # sort eigenvalues in decreasing order
         idx = eig_vals_y.argsort()[::-1]
         eig_vals_y[...] = eig_vals_y[idx]
